@@ -128,6 +128,14 @@ func genLiterals(r *rand.Rand, n int) (string, int) {
 	for b := 0; b < 256; b++ { // every single byte, and every byte between two letters
 		lits = append(lits, []byte{byte(b)}, []byte{'x', byte(b), 'y'})
 	}
+	// every byte followed by a character that may change the meaning of an escape sequence
+	// written for it (digits after an octal/NUL escape, hex digits after \x and \u, quotes...)
+	for b := 0; b < 256; b++ {
+		for _, f := range []byte("079afxun\\\"'`${") {
+			lits = append(lits, []byte{byte(b), f})
+		}
+		lits = append(lits, []byte{byte(b), byte(b)}, []byte{byte(b), '1', '2', '3'})
+	}
 	for i := 0; i < n; i++ {
 		l := r.Intn(24)
 		bs := make([]byte, l)
